@@ -112,6 +112,16 @@ CLAIMED["C20"] = ("Proof: VerifyLayout::and (translated from the source on every
     "feature and the REAL compare_layouts (abi_stable) must give the predicted verdict; group pairs against the property's own expectation.", "5.C20",
     "Trusted: Coq kernel; translator verifyand.py; abi_stable's checker (third party, tied only through compiled pairs); generator model.",
     "Coq proof over a translated function + differential runs against abi_stable on compiled definition pairs")
+CLAIMED["C17"] = ("Proof: the argument splitter returns the (type, name) pairs of a well-formed parameter list unchanged and in order (unbalanced input: a prefix, never a "
+    "reordering); in C mode every vtable entry and drop helper of every object and group type is served by a wrapper present in the header which, when it is the entry's own "
+    "or differs only in the cast type of `self`, invokes that entry's slot with the container and the arguments in order, returns the result (with all vtable pointers for "
+    "container returns), clones the context before a consuming call and releases the clone after it; the drop helper releases instance and context once; C++ member functions "
+    "of groups and single-trait objects forward likewise. Tie: the wrapper AST the theorems talk about is rendered and compared (modulo white space) with the text the REAL "
+    "parse_header emits for generated cbindgen-shaped headers; the container/context tables and two source-dependent decisions are re-read from the source. Monitor: the processed "
+    "header is compiled with a generated mock-vtable driver and every entry's wrapper is called; mocks log slot, container, arguments, clone/release order.", "5.C17",
+    "Trusted: Coq kernel; header generator hdrgen.py (cbindgen is not installed); harness/bindgen (includes the tool's sources by path); mock driver generator + gcc; translator bindgentables.py. "
+    "Not modelled: the discovery regular expressions (differential runs only). C++ mode: theorems only so far (no g++ driver yet).",
+    "Coq proof over a model of the wrapper generator + text-level tie to the real tool + compiled mock-vtable runs")
 PENDING = "not yet built in this round (planned, see DESIGN.md section 5); not claimed until its theorem, tie and monitor exist"
 NA = {}
 
